@@ -67,20 +67,22 @@ def _replace_span_macros(text, log):
 
 
 def _rewrite_unwrap_or_else(text, kinds, log):
-    """R8b: `RECV.unwrap_or_else(|..| { BODY })` written out as its definition
-    `match RECV { Some(v)/Ok(v) => v, None/Err(_) => { BODY } }` (closure captures &mut state).
-    `kinds` lists, in order of occurrence, whether each receiver is an 'Option' or a 'Result'."""
-    for kind in kinds:
+    """R8b: `RECV.unwrap_or_else(|..| BODY)` written out as its definition
+    `match RECV { Some(v)/Ok(v) => v, None/Err(_) => { BODY } }`. A closure taking no argument belongs to
+    an Option, one taking `|_|`/`|e|` to a Result. Applied to every occurrence (`kinds` is kept for
+    documentation of the expected occurrences only)."""
+    n = 0
+    while True:
         m = rl.mask(text)
-        hit = re.search(r'\.unwrap_or_else\(\|_?\| \{', m)
+        hit = re.search(r'\.unwrap_or_else\(\s*\|(?P<p>[^|]*)\|\s*', m)
         if not hit:
-            raise ExtractError('R8b: no unwrap_or_else closure found')
-        bo = hit.end() - 1
-        bc = rl.match_bracket(m, bo)
+            break
         po = m.index('(', hit.start())
         pc = rl.match_bracket(m, po)
-        if m[bc + 1:pc].strip() != '':
-            raise ExtractError('R8b: unexpected closure shape')
+        cbody = text[hit.end():pc].strip().rstrip(',').strip()
+        if not cbody.startswith('{'):
+            cbody = '{ ' + cbody + ' }'
+        kind = 'Option' if hit.group('p').strip() == '' else 'Result'
         # receiver: walk back over a method chain
         i = hit.start()
         while i > 0:
@@ -98,15 +100,17 @@ def _rewrite_unwrap_or_else(text, kinds, log):
                 i = j
             elif c.isalnum() or c in '_.:&':
                 i -= 1
+            elif c in ' \n\t' and text[:i].rstrip().endswith(')') and text[i:hit.start()].strip() == '':
+                i = len(text[:i].rstrip())
             else:
                 break
-        recv = text[i:hit.start()]
-        cbody = text[bo:bc + 1]
+        recv = text[i:hit.start()].strip()
         arms = ('Some(v) => v, None =>' if kind == 'Option' else 'Ok(v) => v, Err(_) =>')
         new = 'match %s { %s %s }' % (recv, arms, cbody)
         text = text[:i] + new + text[pc + 1:]
+        n += 1
         log.append(dict(rule='R8b:unwrap_or_else', part='body', count=1, matched=[recv + '.unwrap_or_else(..)'], replaced_by='match on the receiver (definition of unwrap_or_else)',
-                        why='closure captures mutable state'))
+                        why='closure may capture mutable state; Verus has no spec for it'))
     return text
 
 
@@ -443,7 +447,10 @@ def _insert_loop_invariants(body, invs, fname, optional=False):
             continue
         loops.append((hit.start(), bo))
     if len(loops) != len(invs):
-        raise ExtractError('%s: contract gives %d loop invariants but body has %d loops' % (fname, len(invs), len(loops)))
+        # The body's loop structure differs from the one the contract was written for (a loop was added,
+        # removed, or turned into a conditional). No invariant is guessed: the loops are emitted without
+        # one, so that whatever the function's contract still demands must be provable without help.
+        return body
     for (ls, bo), inv in zip(loops, invs):
         if inv is None:
             continue
@@ -678,7 +685,7 @@ def build_unit(unit: Unit, outdir, repo=None):
             log.append(dict(rule='R14:explicit-drop', part='body', count=1, matched=[local], replaced_by='%s.drop(..) at the end of the body' % local,
                             why='Rust drops the local there; Verus does not model implicit Drop calls'))
         # ---- body
-        if f.unwrap_or_else:
+        if '.unwrap_or_else(' in body:
             body = _drop_macro_calls(body, log)
             try:
                 body = _rewrite_unwrap_or_else(body, f.unwrap_or_else, log)
@@ -732,6 +739,9 @@ def build_unit(unit: Unit, outdir, repo=None):
         body = add_pre(body, f.pre)
 
         attrs = f.attrs.strip()
+        if 'exec_allows_no_decreases_clause' not in attrs:
+            # termination is not claimed for any extracted function (it depends on the environment)
+            attrs = (attrs + ' ' if attrs else '') + '#[verifier::exec_allows_no_decreases_clause]'
         pre_attr = ('    ' + attrs + '\n' if attrs else '')
         if trait_impl:
             head = re.sub(r'^pub(?:\([a-z]+\))? ', '', head)
